@@ -14,10 +14,27 @@ from harness.lib import oracle as O, impl as I, cvgen as CG, cvsig as SG, rules 
 sys.path.insert(0, os.path.join(os.path.dirname(os.path.dirname(os.path.abspath(__file__))), 'translate'))
 import expasy as _E
 
+# Other checks may rebuild ocaml/oracle while this one runs (the build replaces the binary under a lock the
+# callers do not take): retry a failed oracle call a few times instead of failing the whole run.
+if not getattr(O, '_cv_robust', False):
+    import time as _time
+    _orig_call_many = O.call_many
+    def _robust_call_many(reqs, chunk=None):
+        last = None
+        for attempt in range(8):
+            try:
+                return _orig_call_many(reqs, chunk)
+            except (RuntimeError, OSError) as e:
+                last = e
+                _time.sleep(3 + 2 * attempt)
+        raise last
+    O.call_many = _robust_call_many
+    O._cv_robust = True
+
 F_STOPLOSS = 'C01-stoploss'
 F_D14 = 'D14'
-F_NOLA = 'C01-nolookahead-crash'
 F_PEPSIN = 'D14b-lookbehind'
+F_ADJ = 'C01-nola-adjacent-sites'
 
 # ------------------------------------------------------------------ rule classes (from the repo's table)
 _RC = {}
@@ -38,12 +55,6 @@ def rule_classes():
             la.append(n)
     _RC.update(la=la, nola=nola, wide=wide)
     return _RC
-
-def is_nola_crash(run, res):
-    """callVariant aborts in the cleavage-graph construction with an empty node (IndexError in
-    PVGNode._get_nth_rf_index) -- only for rules having an alternative without look-ahead"""
-    return (isinstance(res, dict) and res.get('__exc__') == 'IndexError'
-            and '_get_nth_rf_index' in res.get('tb', '') and run['rule'] in rule_classes()['nola'])
 
 # ------------------------------------------------------------------ evaluation
 def _tx_of(case, tx_id):
@@ -88,6 +99,13 @@ def run_batch(ctx, cases, want_may=True, tag='cv'):
                 ev.xs[tx_id] = x
                 if run.get('skip_oracle'):
                     continue
+                fl = run_flags(run)
+                if fl:
+                    reqs.append((('cv_must_fl', [x, fl]), (ev, 'must', tx_id)))
+                    reqs.append((('cv_realizable_fl', [x, fl, peps]), (ev, 'real', tx_id)))
+                    if want_may:
+                        reqs.append((('cv_may_novel_fl', [x, fl]), (ev, 'may', tx_id)))
+                    continue
                 reqs.append((('cv_must', x), (ev, 'must', tx_id)))
                 reqs.append((('cv_realizable', [x, peps]), (ev, 'real', tx_id)))
                 if want_may:
@@ -118,6 +136,17 @@ def run_batch(ctx, cases, want_may=True, tag='cv'):
     classify(evs)
     return evs
 
+def run_flags(run):
+    """[sect, w2f] when the run uses an alt-translation flag, else None"""
+    if run.get('sect') or run.get('w2f'):
+        return [bool(run.get('sect')), bool(run.get('w2f'))]
+    return None
+
+def unlimited(x):
+    y = list(x)
+    y[9] = [x[9][0], -1, 0, 1000000]
+    return y
+
 def _cds_end(case, tx_id):
     g, t = _tx_of(case, tx_id)
     return t['cds'][1] if t['cds'] else None
@@ -143,21 +172,33 @@ def classify(evs):
         if ev.exc:
             continue
         exc_on = ev.run['exc'] != 'None'
+        fl = run_flags(ev.run)
         for p in list(ev.missing):
             tags = []
             for tx_id, x in ev.xs.items():
                 recs = ev.recs[tx_id]
-                ws = SG.decode_wits(O.call('cv_must_witnesses', [x, p]), recs)
-                if not ws:
-                    continue
-                if SG.explained_by_stoploss(x, recs, _cds_end(ev.case, tx_id), ws):
-                    tags.append(F_STOPLOSS)
-                elif exc_on and SG.explained_by_exception_missing(x, recs, ws):
-                    tags.append(F_D14)
-                elif ev.run['rule'] in rule_classes()['wide']:
-                    tags.append(F_PEPSIN)
+                if fl:
+                    # an alt form: judge the derivations of every obliged product it is a form of
+                    bases = [O.U(q) for q in O.call('cv_must_bases_fl', [x, fl, p])]
+                    xw = unlimited(x)
                 else:
-                    tags.append(None)
+                    bases, xw = [p], x
+                for q in bases:
+                    ws = SG.decode_wits(O.call('cv_must_witnesses', [xw, q]), recs)
+                    if not ws:
+                        continue
+                    if SG.explained_by_stoploss(xw, recs, _cds_end(ev.case, tx_id), ws):
+                        tags.append(F_STOPLOSS)
+                    elif exc_on and SG.explained_by_exception_missing(xw, recs, ws):
+                        tags.append(F_D14)
+                    elif ev.run['rule'] in rule_classes()['wide']:
+                        tags.append(F_PEPSIN)
+                    elif SG.explained_by_softsite_missing(xw, ws):
+                        tags.append(F_PEPSIN)
+                    elif ev.run['rule'] in rule_classes()['nola'] and SG.explained_by_adjacent_sites(xw, ws):
+                        tags.append(F_ADJ)
+                    else:
+                        tags.append(None)
             ev.missing[p] = None if (not tags or None in tags) else sorted(set(tags))[0]
         for p in list(ev.extra):
             tag = None
@@ -166,6 +207,10 @@ def classify(evs):
                     tag = F_D14
             if tag is None and ev.run['rule'] in rule_classes()['wide']:
                 if any(SG.substring_realizable(x, p) for x in ev.xs.values()):
+                    tag = F_PEPSIN
+            if tag is None and not run_flags(ev.run):
+                # a site that needs look-behind (e.g. trypsin W-K-P) missed by the node-local evaluation
+                if any(O.call('cv_realizable_relaxed2', [x, [p]])[0] for x in ev.xs.values()):
                     tag = F_PEPSIN
             ev.extra[p] = tag
 
